@@ -251,3 +251,63 @@ def cfi(tier, seed):
         functions=[dict(function='elftools/dwarf/callframe.py:CallFrameInfo._parse_entries/_parse_entry_at/_parse_instructions/'
                                  '_parse_cie_for_fde/_parse_fde_header/_parse_lsda_pointer, CFIEntry._decode_CFI_table',
                         kind='bounded differential')], exhaustive=False)
+
+
+def _decoded_view(e):
+    from specs import cfi_spec as C
+    dec = e.get_decoded()
+    return (C.real_rows(dec), list(dec.reg_order))
+
+
+@task('c10-cfi-history-differential', ['C10'], kind='bounded')
+def cfi_history(tier, seed):
+    """C10: the decoded table of an entry does not depend on which entries were decoded before, how
+    often, or in which order (each answer is compared with a fresh object that decodes only that entry)"""
+    from elftools.dwarf.callframe import CallFrameInfo, ZERO
+    from elftools.dwarf.structs import DWARFStructs
+    rng = random.Random(seed * 31 + 10)
+    names = [n for n in _names() if n != 'DW_CFA_set_loc']
+    obs = []
+    n = 25 if tier == 'quick' else 600
+    for le in (True, False):
+        bad = None
+        for _ in range(n):
+            asz, ver = rng.choice([4, 8]), rng.choice([1, 3, 4])
+            section, expect = build_debug_frame(rng, le, 32, asz, ver, names, n_fde=rng.choice([2, 3, 4]))
+
+            def fresh():
+                st = DWARFStructs(little_endian=le, dwarf_format=32, address_size=asz)
+                return [e for e in CallFrameInfo(io.BytesIO(section), len(section), 0, st).get_entries() if not isinstance(e, ZERO)]
+            try:
+                k = len(fresh())
+                alone = [_decoded_view(fresh()[i]) for i in range(k)]
+                ents = fresh()
+                hist = [rng.randrange(k) for _ in range(rng.choice([k, 2 * k, 3 * k]))]
+                for i in hist:
+                    got = _decoded_view(ents[i])
+                    if got != alone[i]:
+                        bad = dict(confirmed=True, how='entries of one CallFrameInfo decoded in the order %r' % (hist,),
+                                   input=section.hex()[:1200], configuration=repr((le, asz, ver)),
+                                   observed='entry #%d decodes to rows/register order %r' % (i, (got[0][-1:], got[1])),
+                                   expected='what a fresh object decodes for it: %r' % ((alone[i][0][-1:], alone[i][1]),))
+                        break
+                if not bad:
+                    for i in range(k):
+                        got = _decoded_view(ents[i])
+                        if got != alone[i]:
+                            bad = dict(confirmed=True, how='entries decoded in the order %r, then entry #%d read again' % (hist, i),
+                                       input=section.hex()[:1200], configuration=repr((le, asz, ver)),
+                                       observed='entry #%d now reads %r' % (i, (got[0][-1:], got[1])),
+                                       expected='%r' % ((alone[i][0][-1:], alone[i][1]),))
+                            break
+            except Exception as e:
+                bad = dict(confirmed=True, how='decode history', input=section.hex()[:1200], configuration=repr((le, asz, ver)),
+                           observed='raised %r' % (e,), expected='decoded tables')
+            if bad:
+                break
+        obs.append(dict(name='bounded:dwarf/callframe.py:history-independence[%s]' % ('LSB' if le else 'MSB'), kind='bounded',
+                        verdict='refuted' if bad else 'proved', backend='ground-eval(seeded differential)', time=0.0, bounded=True,
+                        detail=bad and bad['observed'], native=bad))
+    return dict(obligations=obs, assumptions=['BOUNDED: 2-4 FDEs sharing one CIE, histories up to 3x the number of entries, seeded'],
+                functions=[dict(function='elftools/dwarf/callframe.py:CFIEntry.get_decoded/_decode_CFI_table (decode history)',
+                                kind='bounded differential')], exhaustive=False)
